@@ -96,6 +96,50 @@ CLAIMED = {
              'row by TLC.',
         design='4/C19',
         technique='TLA+ machine + TLC exploration, replay through real argv/files/stdin (in-process and child processes), audit-hook event traces validated by TLC'),
+    'C11': dict(
+        text='GlomMutate is an explicit Assign state machine with the heap as a variable (EvalVal, FetchParent, FactoryCall, BuildTail, '
+             'Store; `*` fans out over a queue of matches; faults -- immutable cells, read-only property, raising setters, factory raising '
+             'on its k-th call -- are environment choices) checked by TLC against the plain-Python nested assignment and against state laws '
+             'in every intermediate state (NoEarlyWrite, AttachLast, FactoryLaw, NeverReplaced, ReadBack, Outcome), with spec mutants; '
+             'every case is replayed in five destination spellings on plain and write-logging / faulting containers (outcome, identity, '
+             'documented error class, final heap, factory calls, write log); recorded random executions are stepped through the machine '
+             'by TLC.  `*` is covered, `**` is not.',
+        design='4/C11',
+        technique='TLA+ state machine + TLC (invariants over all intermediate states, spec mutants), replay with fault injection, TLC validation of recorded write logs'),
+    'C12': dict(
+        text='The Delete branch of the GlomMutate machine (FetchParent.. -> Del, `*` fan-out, deletion faults as environment choices) is '
+             'checked by TLC against Python del on the addressed element or nothing: PathDeleteError for a missing final element, '
+             'PathAccessError for a missing parent, ignore_missing silencing both, alike for every addressing style (DelFrame, Outcome '
+             'laws, spec mutants incl. the historic catch-IndexError-only behaviour); every case is replayed in every spelling on plain '
+             'and write-logging / faulting containers; recorded random executions are validated by TLC.',
+        design='4/C12',
+        technique='TLA+ state machine + TLC (invariants, spec mutants), replay with fault injection, TLC validation of recorded write logs'),
+    'C06': dict(
+        text='GlomCalls states the law Iso(call, star, registrations) -- the call made alone in a fresh interpreter -- and a frame machine '
+             'transcribed from core.py in which Path.from_text and get_handler are separate check / create / store / fetch actions on the '
+             'shared path cache (keyed by PATH_STAR, bounded) and type memo (reset by register); TLC proves NonInterference and the frame '
+             'condition over all histories of calls / toggles / registrations within the bound and rejects three mechanism mutants; every '
+             'history is performed in one pristine forked interpreter and each call compared with the prediction, with the same call made '
+             'first in another pristine child and with deep before/after snapshots of target, spec and caller scope; long random histories, '
+             'the real 10 000-entry cache overflow and recorded cache / registry events are validated by TLC.',
+        design='4/C06',
+        technique='TLA+ machine spec + TLC (invariants, action property, mutants), history replay in forked interpreters, TLC validation of recorded cache events'),
+    'C20': dict(
+        text='The GlomCalls machine with 2-3 concurrent evaluations (private frames, shared caches with separate check / store steps, '
+             're-entrant nested calls to depth 3) is model-checked against non-interference (each call = its isolated outcome: value, '
+             'observations, error class, error trace) with five mutants that must break it; every schedule at yield-point granularity, and '
+             'at Path.from_text step granularity through a str subclass, is replayed with real threads parked on semaphores and released in '
+             "TLC's order; free-running thread sessions under a minimal switch interval are validated by TLC.",
+        design='4/C20',
+        technique='TLA+ machine spec + TLC over interleavings, deterministic replay on real threads, TLC validation of recorded sessions'),
+    'C15': dict(
+        text='GlomReduce states a pure Python-reference semantics (reduce / sum / n-fold chain / dict.update) next to a heap-level '
+             'transcription of Fold / Sum / Flatten / Merge / flatten() / merge(); MC_C15 takes Evaluate twice on one spec object and TLC '
+             'checks seven laws (value, init afresh, frame, no input accumulator, FoldError, lazy = eager, independence of evaluations) '
+             'with four spec mutants; every case is replayed with plain and call-counting inits, inputs snapshotted and results checked for '
+             'identity-disjointness; seeded random inputs are validated row by row by TLC.',
+        design='4/C15',
+        technique='TLA+ spec + TLC enumeration with spec mutants, replay into glom, TLC validation of recorded executions'),
 }
 
 PENDING_REASON = 'check not built yet (planned: see DESIGN.md section 4); not claimed until both binding directions exist'
